@@ -54,6 +54,9 @@ def atoms(reversed_too=True):
     out += ['python_version == "3.*"', 'python_version != "3.*"', 'python_full_version == "3.8.*"', 'python_full_version != "3.10.*"',
             'python_full_version == "3.*"', 'python_version in "3.8, 3.10"', 'python_version not in "3.8, 3.10"', 'python_version in "2.7"',
             'python_version not in "3.9"', 'platform_release >= "5.0"', 'platform_release < "6.1"', 'platform_release == "21.6.0"']
+    # major-only boundaries: their unions / intersections are the X.* wildcard sets (`< 3.0 or >= 4.0` is `!= 3.*`)
+    out += ['python_full_version < "3.0"', 'python_full_version >= "4.0"', 'python_full_version >= "3.0"', 'python_full_version < "4.0"',
+            'python_version < "3"', 'python_version >= "4"', 'python_full_version != "3.*"']
     for op in ("==", "!="):
         for v in EXTRA_VALUES:
             out.append(f'extra {op} "{v}"')
